@@ -1,25 +1,34 @@
+\* trace validation with every verdict clause and every mechanism diagnostic:  TRACE_FILE=<ndjson> tlc -continue -config SDTrace_all.cfg SDTrace.tla
 SPECIFICATION Spec
 INVARIANT Inv_PROJ
-INVARIANT Inv_MTS
-INVARIANT Inv_STRUCT
-INVARIANT Inv_IDS
-INVARIANT Inv_DEPTHC
-INVARIANT Inv_IDX
-INVARIANT Inv_CACHE
-INVARIANT Inv_RET
-INVARIANT Inv_OUT
-INVARIANT Inv_XL
-INVARIANT Inv_ORACLE
+INVARIANT Inv_QUERY
 INVARIANT Inv_HANG
+INVARIANT Inv_LOOP
+INVARIANT Inv_WORK
 INVARIANT Inv_WF
 INVARIANT Inv_IndexExact
 INVARIANT Inv_PartialFaithful
 INVARIANT Inv_PlainOnly
 INVARIANT Inv_DepthExact
 INVARIANT Inv_CacheFresh
+INVARIANT Inv_Covers
+INVARIANT Inv_SetsFresh
 INVARIANT Inv_FullExact
 INVARIANT Inv_MinExact
 INVARIANT Inv_RetFalse
+INVARIANT Inv_TrueMeansClosed
 INVARIANT Inv_SeedsAll
+INVARIANT Inv_C01
+INVARIANT Dev_MTS
+INVARIANT Dev_STRUCT
+INVARIANT Dev_IDS
+INVARIANT Dev_DEPTH
+INVARIANT Dev_IDX
+INVARIANT Dev_CACHE
+INVARIANT Dev_RET
+INVARIANT Dev_OUT
+INVARIANT Dev_XL
+INVARIANT Dev_ORACLE
+INVARIANT Dev_LOOPMECH
 INVARIANT Accepted
 CHECK_DEADLOCK FALSE
